@@ -729,3 +729,81 @@ func VfH_C06_grapheme_emoji() {
 	}
 	vfReach("end")
 }
+
+// H-C06-word-chain: word rules with look-behind state over longer sequences (WB4 skipping inside WB6/WB7,
+// WB11/WB12, WB15/WB16 parity): sequences of 5 (6 thorough) runes over the representatives of
+// {ALetter, MidLetter, MidNumLet, Numeric, MidNum, ExtendFormat (not ZWJ), Regional_Indicator}.
+func vfWordChainReps() []rune {
+	want := []*ucdTable{ucd.WordBreakALetter, ucd.WordBreakMidLetter, ucd.WordBreakMidNumLet, ucd.WordBreakNumeric,
+		ucd.WordBreakMidNum, ucd.WordBreakExtendFormat, ucd.WordBreakRegional_Indicator}
+	seen := map[*ucdTable]bool{}
+	var out []rune
+	for _, r := range vfReps {
+		c := ucd.LookupWordBreakClass(r)
+		for _, w := range want {
+			if c == w && !seen[c] && !vfIsPic(r) && r != 0x200D {
+				seen[c] = true
+				out = append(out, r)
+			}
+		}
+	}
+	return out
+}
+
+func VfH_C06_word_chain() {
+	reps := vfWordChainReps()
+	n := 5
+	if vfThorough() {
+		n = 5 + vfChoice("extra", 2)
+	}
+	text := make([]rune, n)
+	for i := range text {
+		text[i] = reps[vfInt("chainRep", 0, len(reps)-1)]
+	}
+	var seg Segmenter
+	seg.Init(text)
+	want := vfWordRef(text)
+	for i := 0; i <= n; i++ {
+		vfAssert((seg.attributes[i]&wordBoundary != 0) == want[i], "word boundary differs from UAX #29 (WB rules)")
+	}
+	vfReach("end")
+}
+
+// H-C06-line-spaces: the line rules with "X SP* x" contexts and regional-indicator parity keep state over
+// longer sequences (LB8, LB14-LB17, LB18, LB30a with LB9): sequences of 5 (6 thorough) runes over narrow
+// representatives of {SP, ZW, OP, QU, CL, CP, NS, B2, RI, CM, AL}.
+func vfLineSpaceReps() []rune {
+	want := []*ucdTable{ucd.BreakSP, ucd.BreakZW, ucd.BreakOP, ucd.BreakQU, ucd.BreakCL, ucd.BreakCP, ucd.BreakNS,
+		ucd.BreakB2, ucd.BreakRI, ucd.BreakCM, ucd.BreakAL}
+	seen := map[*ucdTable]bool{}
+	var out []rune
+	for _, r := range vfReps {
+		c := ucd.LookupLineBreakClass(r)
+		for _, w := range want {
+			if c == w && !seen[c] && !unicode.Is(ucd.LargeEastAsian, r) {
+				seen[c] = true
+				out = append(out, r)
+			}
+		}
+	}
+	return out
+}
+
+func VfH_C06_line_spaces() {
+	reps := vfLineSpaceReps()
+	n := 5
+	if vfThorough() {
+		n = 5 + vfChoice("extra", 2)
+	}
+	text := make([]rune, n)
+	for i := range text {
+		text[i] = reps[vfInt("spaceRep", 0, len(reps)-1)]
+	}
+	var seg Segmenter
+	seg.Init(text)
+	want := vfLineRef(text)
+	for i := 0; i <= n; i++ {
+		vfAssert((seg.attributes[i]&lineBoundary != 0) == want[i], "line break opportunity differs from UAX #14 (LB rules)")
+	}
+	vfReach("end")
+}
